@@ -956,6 +956,23 @@ def run_case(case, ch: Choices) -> RunResult:
                     continue
             if client_per_operation and i > 0:
                 client = make_client(live)
+            # now and then the caller makes a mistake: a further top-level argument that is not a built field (the parentheses of a
+            # root method forgotten).  The call raises - nothing is asserted about that call; the objects built for it are kept
+            # and every later operation is judged as always
+            if prebuilt is None and partner is None and ch.chance("h.caller_mistake", 1, 10):
+                try:
+                    good = [interpret(e, live, schema, snake, root_kind=op["kind"], shared={"__pool__": live_pool}) for e in op["fields"]]
+                except (Unresolvable, BuilderRaised):
+                    good = None
+                if good:
+                    n_before = len(captured)
+                    _c, exc_m = send(client, op, live, good + [lambda: None], None)
+                    if exc_m is not None and len(captured) == n_before:
+                        res.bump("history.call_with_a_non_field_argument_raised")
+                        built_ops.append((op, good))
+                        trace.append("op (not counted) %s -> caller mistake, raised %s" % (json.dumps(op)[:200], type(exc_m).__name__))
+                        continue
+                    # (accepted or sent: not this workload's business - go on and send the operation properly, rebuilt)
             # now and then the send itself fails (time-out while waiting for the answer): the caller keeps its built objects
             # and goes on using them
             inject = partner is None and ch.chance("h.transport_error", 1, 10)
